@@ -337,6 +337,13 @@ def run(shard, ctx):
                 elif r_ < 0.6:
                     ins = {"kind": "plain"}
             tracks.append({"name": "t%d" % ti, "instrument": ins, "bars": bars})
+        if ntr >= 2 and kind in ("bars", "tracks", "composition") and rng.random() < 0.2:
+            # one track's bar is only partly filled (its last entry is left out); the others keep sounding to the bar line
+            ti = rng.randrange(ntr)
+            k = rng.randrange(nb)
+            if len(tracks[ti]["bars"][k]["entries"]) >= 2:
+                tracks[ti]["bars"][k]["entries"] = tracks[ti]["bars"][k]["entries"][:-1]
+                w["partly_filled"] = [ti, k]
         if fixed:
             tracks = fixed[i][2]
             ntr, nb = len(tracks), 1
@@ -455,6 +462,20 @@ def run_control(ctx):
     ctx.check("observer: every attached observer receives the full sequence", o1.log == seq2.log and o2.log == seq2.log, {}, len(seq2.log),
               [len(o1.log), len(o2.log)], mechanism="two-observers")
     ctx.check("time: the return value reports the final tempo", r == {"bpm": 100}, {}, {"bpm": 100}, repr(r))
+    # the same instrument object renamed between two playbacks
+    ins = MidiInstrument()
+    ins.name = MidiInstrument.names[40]
+    tr = Track(ins)
+    bq = Bar()
+    bq + "C", bq + "E", bq + "G", bq + "C"
+    tr.add_bar(bq)
+    for newname, prog in ((MidiInstrument.names[40], 40), (MidiInstrument.names[73], 73), ("not a GM name", 1), (MidiInstrument.names[0], 0)):
+        ins.name = newname
+        seqr = Rec()
+        seqr.play_Tracks([tr], [5], 120)
+        ctx.check("instrument: playing tracks first announces one instrument change per track on its channel",
+                  bool(seqr.log) and seqr.log[0][:3] == ("instr", 5, MidiInstrument.names.index(newname) if newname in MidiInstrument.names else 1),
+                  {"instrument_name": newname, "same_object_renamed": True}, ("instr", 5, prog), seqr.log[:1], mechanism="instr-renamed")
     seq3 = Rec()
     seq3.set_instrument(4, 17, 2)
     ctx.check("instrument: set_instrument emits the instrument event", seq3.log == [("instr", 4, 17, 2)], {}, [("instr", 4, 17, 2)], seq3.log)
